@@ -163,7 +163,7 @@ class ESSearch(ABC):
 
             # if something went wrong with the acquisition function, random search is performed
             if z_new is None or z_new.size == 0:
-                z_candidates = np.random.rand(u_new.shape[0])
+                z_new = np.random.rand(u_new.shape[0])
                 self.logger.warn(
                     "bads:es_search: Something went wrong with the acquisition function, random search is performed"
                 )
